@@ -1937,14 +1937,14 @@ def const_expr(r, depth, strings=False, vars=()):
         a, b = str_pair(r)
         return ['bin', r.choice(('and', 'or', 'and', 'xor')), ['var', r.choice(vars)],
                 ['bin', r.choice(CMP), a, b]]
-    if vars and depth > 0 and r.random() < 0.12:
+    if vars and depth > 0 and r.random() < 0.2:
         # a chain variable +/- constant +/- constant (left to right): the first
         # step alone may overflow where the sum of the constants would not
         v = ['var', r.choice(vars)]
         ty = name_type(v[1]) if name_type(v[1]) in ('%', '&') and r.random() < 0.8 else r.choice('%&')
-        c1 = r.choice((1, 2, 100, 10000, 32767))
-        c2 = r.choice((c1, c1, 1, c1 + 1))
-        o1, o2 = r.choice((('+', '-'), ('-', '+'), ('+', '+'), ('-', '-')))
+        c1 = r.choice((2, 100, 10000, 32767, 1))
+        c2 = r.choice((c1, c1, 2, min(c1 + 1, 32767)))
+        o1, o2 = r.choice((('+', '-'), ('-', '+'), ('+', '-'), ('-', '+'), ('+', '+'), ('-', '-')))
         return ['bin', o2, ['bin', o1, v, ['lit', ty, c1]], ['lit', ty, c2]]
     if vars and r.random() < 0.3:
         v = ['var', r.choice(vars)]
@@ -2021,14 +2021,38 @@ def const_program(r):
         for _ in range(r.randint(1, 3)):
             ty = r.choice('%&!#')
             nm = fresh('b', ty)
-            if ty in '%&' and r.random() < 0.4:
+            if ty in '%&' and r.random() < 0.3:
+                # the largest value of the type: one more step overflows
+                e0 = ['lit', ty, 32767 if ty == '%' else 2147483647]
+            elif ty in '%&' and r.random() < 0.4:
                 e0 = ['bin', '-', ['lit', ty, -32767 if ty == '%' else -2147483647], ['lit', '%', 1]]
             else:
                 e0 = ['lit', ty, r.choice(BOUNDARY[ty])]
             main.append({'k': 'let', 'lv': ['var', nm], 'e': e0})
             vars_.append(nm)
     for _ in range(r.randint(1, 4)):
-        form = r.choice(('print', 'print', 'const', 'let', 'if', 'dim', 'select', 'for'))
+        form = r.choice(('print', 'print', 'const', 'let', 'if', 'dim', 'select', 'for', 'chain'))
+        if form == 'chain':
+            # a variable at the end of its range, then +c -c' (or -c +c'): the
+            # first step overflows although the constants nearly cancel
+            ty = r.choice('%&')
+            top = r.random() < 0.5
+            nm = fresh('bm', ty)
+            big = 32767 if ty == '%' else 2147483647
+            main.append({'k': 'let', 'lv': ['var', nm],
+                         'e': ['lit', ty, big] if top else
+                         ['bin', '-', ['lit', ty, -big], ['lit', '%', 1]]})
+            c1 = r.choice((2, 100, 10000))
+            c2 = r.choice((c1, c1, c1 - 1, c1 + 1, 2))
+            e = ['bin', '-' if top else '+', ['bin', '+' if top else '-', ['var', nm], ['lit', ty, c1]],
+                 ['lit', ty, c2]]
+            if r.random() < 0.5:
+                main.append({'k': 'print', 'items': [[['lit', '$', f'<{len(main)}>'], ';'], [e, '']]})
+            else:
+                v2 = fresh('v', ty)
+                main.append({'k': 'let', 'lv': ['var', v2], 'e': e})
+                main.append({'k': 'print', 'items': [[['lit', '$', f'<{len(main)}>'], ';'], [['var', v2], '']]})
+            continue
         ev = vars_ if form in ('print', 'let', 'if') else ()
         e = const_expr(r, r.choice((1, 1, 2, 2, 3)), strings=True, vars=ev)
         if paren_depth(e) > 3:
